@@ -14,20 +14,22 @@ LEVEL = 'exploration'
 RULE = ('A case is one seeded operation history over two FeatureContainers: rounds of add* / sort / query* where queries '
         'are point (findFeaturesAt), range (findFeaturesBetween) and aligned-read (findFeaturesAtPysamAlign method 0/1) '
         'lookups, a share of them exact repeats of queries issued in an earlier round (to hit the memo), interleaved with '
-        'bursts of 0..1500 distinct queries on the other container (to churn the shared 512-entry LRU). Every query result is '
+        'bursts of 0..1500 distinct queries on the other container (to churn the shared 512-entry LRU); in 15% of the rounds the '
+        're-index is first INTERRUPTED (an exception delivered at the k-th executed line of sort(), k seeded) and then run again. Every query result is '
         'compared as a set with a brute-force list model. Non-trivial: the history has >=2 rounds on one container and at least '
         'one query repeated across an add+sort; distinct = distinct event-log digests among those.')
 ASSUMPTIONS = [
     'results are compared as sets of feature tuples (order and multiplicity are not part of the statement)',
     'feature coordinates are non-negative integers with start <= end (closed intervals); query coordinates may be negative or far outside',
     'a query on a container with un-indexed additions is preceded by sort() by the harness (the statement\'s histories always re-index first), except point lookups marked lazy: findFeaturesAt re-indexes on demand and is expected to see the additions',
+    'after an interrupted sort() nothing is claimed until sort() has been called again explicitly (the statement quantifies over histories, not over lookups on a half-built index)',
     'aligned blocks are half-open [start,end) as pysam defines them: a read overlaps a feature iff one of its aligned bases lies in the closed feature interval',
 ]
 COMPONENTS = {
     'real': ['FeatureAnnotatedMolecule.annotate (method 0 blocks / method 1 per base) on base Fragment reads', 'singlecellmultiomics.features.FeatureContainer (addFeature, sort, findFeaturesAt all optim variants, findFeaturesBetween, findFeaturesAtPysamAlign)', 'functools.lru_cache shared by all instances', 'pysam.AlignedSegment'],
-    'stub': [],
+    'stub': ['interrupt injector: sys.settrace line events on FeatureContainer.sort, an exception raised at the k-th line'],
 }
-REQUIRED_PROBES = ['lazy_reindex_by_point_query', 'molecule_annotation', 'repeat_query_across_reindex', 'lru_churn_evicted', 'nonempty_result', 'read_query', 'nested_hit']
+REQUIRED_PROBES = ['reindex_interrupted', 'lazy_reindex_by_point_query', 'molecule_annotation', 'repeat_query_across_reindex', 'lru_churn_evicted', 'nonempty_result', 'read_query', 'nested_hit']
 
 
 def plan(tier):
@@ -109,6 +111,10 @@ def generate(seed, tier):
             # a point lookup right after the additions, WITHOUT an explicit sort(): findFeaturesAt re-indexes lazily and must already see the new features
             f0 = ops[-1]
             ops.append(['at', c, f0[2], w.randint(f0[3], f0[4]), None, 'bdbnb', 'lazy'])
+        if w.random() < 0.15:
+            # the re-index is interrupted (KeyboardInterrupt-like exception delivered at the k-th line of sort()) and then run again:
+            # the second, complete re-index must leave no trace of the aborted one
+            ops.append(['sort_abort', c, weighted(w, [(w.randint(0, 12), 3), (w.randint(13, 60), 2)])])
         ops.append(['sort', c])
         nq = weighted(w, [(w.randint(1, 6), 4), (w.randint(7, 40), 4), (w.randint(41, 200), 1)])
         for _ in range(nq):
@@ -191,12 +197,43 @@ def execute(case):
     asked = [{}, {}]          # query key -> epoch when last asked
     viol = []
     probes = {}
+    faults = {}
     header = pysam.AlignmentHeader.from_dict({'HD': {'VN': '1.6'}, 'SQ': [{'SN': c, 'LN': 10 ** 8} for c in CHROMS + ['chrNA']]})
 
     def probe(k, n=1):
         probes[k] = probes.get(k, 0) + n
 
     broken = [False, False]
+    aborted = [False, False]
+
+    class _Interrupt(BaseException):
+        pass
+
+    def aborted_sort(c, k):
+        import sys
+        seen = [0]
+
+        def local(frame, event, arg):
+            if event == 'line':
+                seen[0] += 1
+                if seen[0] > k:
+                    raise _Interrupt()
+            return local
+
+        def glob(frame, event, arg):
+            co = frame.f_code
+            if co.co_name == 'sort' and co.co_filename.endswith('features.py'):
+                return local
+            return None
+        old = sys.gettrace()
+        sys.settrace(glob)
+        try:
+            cont[c].sort()
+            return False
+        except _Interrupt:
+            return True
+        finally:
+            sys.settrace(old)
 
     def do_sort(c, how):
         try:
@@ -207,6 +244,7 @@ def execute(case):
             viol.append({'property': PROPERTY, 'class': 'reindex-raised', 'signature': type(e).__name__,
                          'detail': {'container': c, 'how': how, 'error': repr(e)[:200], 'n_features': len(model[c])}})
         dirty[c] = False
+        aborted[c] = False
         epoch[c] += 1
 
     def ensure_sorted(c):
@@ -244,6 +282,18 @@ def execute(case):
             if model[c]:
                 do_sort(c, 'explicit')
             log.add('sort', c)
+        elif kind == 'sort_abort':
+            if model[c] and not broken[c]:
+                hit = aborted_sort(c, op[2])
+                log.add('sort_abort', c, op[2], hit)
+                if hit:
+                    probe('reindex_interrupted')
+                    faults['reindex_interrupted'] = faults.get('reindex_interrupted', 0) + 1
+                    aborted[c] = True
+                    dirty[c] = True       # nothing is claimed about lookups until the re-index has been run again (explicitly)
+                else:
+                    dirty[c] = False
+                    epoch[c] += 1
         elif kind == 'churn':
             if not model[c]:
                 cont[c].addFeature('chr1', 0, 10, 'churn', strand=None, data='churn')
@@ -254,8 +304,14 @@ def execute(case):
                 continue
             ci_ = getattr(FeatureContainer.findFeaturesAt, 'cache_info', None)
             before = ci_() if ci_ else None
-            for i in range(op[2]):
-                cont[c].findFeaturesAt('chr1', op[3] * 7919 + i, None)
+            try:
+                for i in range(op[2]):
+                    cont[c].findFeaturesAt('chr1', op[3] * 7919 + i, None)
+            except Exception as e:      # a lookup must answer, not raise
+                log.add('churn-raise', opi, type(e).__name__)
+                viol.append({'property': PROPERTY, 'class': 'query-raised', 'signature': f'at/{type(e).__name__}',
+                             'detail': {'op_index': opi, 'op': op, 'error': repr(e)[:200]}})
+                continue
             after = ci_() if ci_ else None
             if before is None or before.currsize + (after.misses - before.misses) > 512:
                 probe('lru_churn_evicted')
@@ -263,7 +319,10 @@ def execute(case):
         else:
             if not model[c]:
                 continue
-            if len(op) > 6 and op[6] == 'lazy' and kind == 'at':
+            if len(op) > 6 and op[6] == 'lazy' and kind == 'at' and aborted[c]:
+                ensure_sorted(c)
+                op = op[:6]
+            elif len(op) > 6 and op[6] == 'lazy' and kind == 'at':
                 if dirty[c]:
                     probe('lazy_reindex_by_point_query')
                     dirty[c] = False        # the lookup itself re-indexes
@@ -340,7 +399,7 @@ def execute(case):
                              'detail': {'op_index': opi, 'op': op, 'error': repr(e)[:200]}})
             asked[c][key] = epoch[c]
     rep = probes.get('repeat_query_across_reindex', 0)
-    return {'violations': viol, 'digest': log.digest(), 'probes': probes, 'faults': {},
+    return {'violations': viol, 'digest': log.digest(), 'probes': probes, 'faults': faults,
             'steps': log.n, 'nontrivial': rep > 0 and max(epoch) >= 2, 'sig': log.digest()}
 
 
